@@ -200,6 +200,10 @@ class RestAPI(object):
                     "Message body {} does not contain valid JSON".format(data)
                 )
 
+            if not isinstance(params, dict):
+                # Every action takes its arguments from the members of a JSON object.
+                return aws_error("SerializationException"), 400
+
             # ------------------------------------------------------------------
 
             """
@@ -241,7 +245,7 @@ class RestAPI(object):
 
                 # Get State Machine type (STANDARD or EXPRESS) if supplied
                 type = params.get("type", "STANDARD")
-                if type not in {"STANDARD", "EXPRESS"}:
+                if not isinstance(type, str) or type not in {"STANDARD", "EXPRESS"}:
                     self.logger.error(
                         "RestAPI CreateStateMachine: State Machine type {} "
                         "is not supported".format(type)
@@ -269,7 +273,8 @@ class RestAPI(object):
                 character limit described in the CreateStateMachine API page.
                 https://docs.aws.amazon.com/step-functions/latest/apireference/API_CreateStateMachine.html
                 """
-                if len(definition) == 0 or len(definition) > MAX_STATE_MACHINE_LENGTH:
+                if (not isinstance(definition, str) or len(definition) == 0
+                        or len(definition) > MAX_STATE_MACHINE_LENGTH):
                     self.logger.error(
                         "RestAPI CreateStateMachine: Invalid definition size for State Machine '{}'.".format(name)
                     )
@@ -504,7 +509,8 @@ class RestAPI(object):
                     character limit described in the UpdateStateMachine API page.
                     https://docs.aws.amazon.com/step-functions/latest/apireference/API_UpdateStateMachine.html
                     """
-                    if len(definition) == 0 or len(definition) > MAX_STATE_MACHINE_LENGTH:
+                    if (not isinstance(definition, str) or len(definition) == 0
+                            or len(definition) > MAX_STATE_MACHINE_LENGTH):
                         self.logger.error(
                             "RestAPI CreateStateMachine: Invalid definition size for State Machine '{}'.".format(state_machine_arn)
                         )
@@ -615,7 +621,7 @@ class RestAPI(object):
                 quota described in Stepfunction Quotas page.
                 https://docs.aws.amazon.com/step-functions/latest/dg/limits.html
                 """
-                if len(input) > MAX_DATA_LENGTH:
+                if not isinstance(input, str) or len(input) > MAX_DATA_LENGTH:
                     self.logger.error(
                         "RestAPI StartExecution: input size for execution '{}' exceeds "
                         "the maximum number of characters service limit.".format(name)
@@ -739,6 +745,9 @@ class RestAPI(object):
                     return aws_error("StateMachineDoesNotExist"), 400
 
                 status_filter = params.get("statusFilter")
+                if status_filter and not isinstance(status_filter, str):
+                    status_filter = None
+
                 if status_filter and status_filter not in {
                     "RUNNING",
                     "SUCCEEDED",
